@@ -208,7 +208,7 @@ def run (j : Json) : Except String Json := do
           | _ => throw "bad message override")
       return ((← str k), msg)
     | _ => throw "bad message override")
-  let res := Flatland.C15.runOverridden ovs v e pre
+  let res := if warn then Flatland.C15.runWarnOverridden ovs v e pre else Flatland.C15.runOverridden ovs v e pre
   let spec := Spec.documented v e
   let known : Bool := match spec with
     | some d => Flatland.C15.Spec.httpNoValue v e d
